@@ -94,7 +94,7 @@ func f(x *big.Int) *big.Int { v := g(x, big.NewInt(3)); v.Add(v, x); return v }`
 func f(x *big.Int) *big.Int { v := id(x); v.Add(v, v); return v }`, "id,f", false, "translate id (x.go:4): returning the parameter or field x"},
 	{"the same local returned twice", bigPre + `func f(x *big.Int) (*big.Int, *big.Int) { v := new(big.Int).Set(x); return v, v }`, "f", false, "returning `v` twice"},
 	{"result of a modifying method used as a value", bigPre + `func f(x *big.Int) *big.Int { v := new(big.Int).Set(x); w := v.Add(v, x); return w }`, "f", false, "would alias v"},
-	{"result of a modifying method returned", bigPre + `func f(x *big.Int) *big.Int { v := new(big.Int).Set(x); return v.Add(v, x) }`, "f", false, "would alias v"},
+	{"result of a modifying method returned", bigPre + `func f(x *big.Int) *big.Int { v := new(big.Int).Set(x); return v.Add(v, x) }`, "f", true, "let v : Int := x\n  (v + x)"}, // accepted since stage 12: v.Add(…); return v
 	{"ModInverse result not dereferenced by the next statement", bigPre + `func f(x, z, m *big.Int) *big.Int { zinv := new(big.Int).ModInverse(z, m); w := new(big.Int).Set(x); w.Mul(w, zinv); return w }`, "f", false,
 		"the statement that follows immediately must dereference `zinv`"},
 	{"ModInverse as the last statement", bigPre + `func f(z, m *big.Int) *big.Int { zinv := new(big.Int).ModInverse(z, m); return zinv }`, "f", false, "must dereference `zinv`"},
@@ -111,11 +111,11 @@ func f(x *big.Int) *big.Int { return h(x) }`, "f", false, "has not been translat
 	{"passed to a library function", "import (\"fmt\"; \"math/big\")\n" + `func f(x *big.Int) string { return fmt.Sprint(x) }`, "f", false, "is not a translated function (it could retain or modify it)"},
 	{"unsupported method with a *big.Int result", bigPre + `func f(x, y, m *big.Int) *big.Int { return new(big.Int).Exp(x, y, m) }`, "f", false, "the method Exp of *big.Int is not supported"},
 	{"unsupported method with another result", bigPre + `func f(x *big.Int) int { return x.BitLen() }`, "f", false, "the method BitLen of *big.Int is not supported"},
-	{"Lsh by a variable", bigPre + `func f(x *big.Int, n uint) *big.Int { return new(big.Int).Lsh(x, n) }`, "f", false, "Lsh is only supported with a (small) constant shift count"},
+	{"Lsh by a variable", bigPre + `func f(x *big.Int, n uint) *big.Int { return new(big.Int).Lsh(x, n) }`, "f", true, "(Go.bigLsh x n.toNat)"}, // accepted since stage 12
 	{"address of a *big.Int variable", bigPre + `func f(x *big.Int) *big.Int { p := &x; return new(big.Int).Set(*p) }`, "f", false, "address-of / dereference of the *big.Int"},
 	{"big.Int by value", bigPre + `func f(x, y *big.Int) *big.Int { var n big.Int; n.Add(x, y); return new(big.Int).Set(&n) }`, "f", false, "translate f"},
 	{"package-level variable", bigPre + `var one = big.NewInt(1)
-func f(x *big.Int) *big.Int { return new(big.Int).Add(x, one) }`, "f", false, "the package-level *big.Int variable one is not supported"},
+func f(x *big.Int) *big.Int { return new(big.Int).Add(x, one) }`, "f", true, "(x + (1 : Int))"}, // a constant since stage 12 (every use in the package is read-only)
 	{"method expression", bigPre + `func f(x, y *big.Int) *big.Int { v := new(big.Int); (*big.Int).Add(v, x, y); return v }`, "f", false, "is not a translated function"},
 	{"deferred modification", bigPre + `func f(x *big.Int) *big.Int { v := new(big.Int); defer v.Add(v, x); return v }`, "f", false, "translate f"},
 	{"closure", bigPre + `func f(x *big.Int) *big.Int { g := func() *big.Int { return new(big.Int).Set(x) }; return g() }`, "f", false, "closures are not supported"},
